@@ -1263,6 +1263,26 @@ func vRaceFree(threads int, body func()) bool {
 	return true
 }
 
+func vPoolUseAfterPut() int { return 0 }
+
+// vConcurrently (native): the body from n goroutines, 60 rounds each (race-detector replay)
+func vConcurrently(n int, body func()) {
+	var wg sync.WaitGroup
+	start := make(chan struct{})
+	for g := 0; g < n; g++ {
+		wg.Add(1)
+		go func() {
+			defer wg.Done()
+			<-start
+			for r := 0; r < 60; r++ {
+				body()
+			}
+		}()
+	}
+	close(start)
+	wg.Wait()
+}
+
 // vConfigSig (native): the exported configuration fields, rendered
 func vConfigSig(sp *SAMLServiceProvider) string {
 	v := reflect.ValueOf(sp).Elem()
